@@ -160,14 +160,15 @@ def cond_text(cs):
 
 
 def program(conds):
-    lines = ["house h", ""]
+    # the stopper comes FIRST: its `bid stop all` at tick K+1 reaches the test framers before they
+    # run in that tick, so they attempt their transition exactly at ticks 1..K (all recorded)
+    lines = ["house h", "", "  framer stopper be active first s0"]
+    for k in range(K + 1):
+        lines += ["    frame s%d" % k, "      go next"]
+    lines += ["    frame s%d" % (K + 1), "      bid stop all", ""]
     for i, cs in enumerate(conds):
         lines += ["  framer t%d be active first A" % i, "    frame A",
                   "      go B if " + cond_text(cs), "    frame B", ""]
-    lines += ["  framer stopper be active first s0"]
-    for k in range(K + 1):
-        lines += ["    frame s%d" % k, "      go next"]
-    lines += ["    frame s%d" % (K + 1), "      bid stop all", ""]   # stops everything after tick K was recorded
     lines += ["  framer rec be active first r", "    frame r", "      do verif rec21", ""]
     return "\n".join(lines)
 
@@ -500,7 +501,7 @@ def run(ctx):
     # 1. Need.Check grid
     vals = [-2, 0, 1, 3, 2.5, -0.25, 1.0, 3.5, True, False, None, "", "ab", "b"]
     tols = [0, 1, -1, 0.5, -0.5, 0.25, None, "x", True]
-    grid = list(itertools.product(vals, OPS + ["=", "", "=>"], vals, tols))
+    grid = list(itertools.product(vals, OPS + ["=>"], vals, tols))
     rng.shuffle(grid)
     grid = grid[:ctx.n(3000, len(grid))]
     c1, m1 = [], []
@@ -517,7 +518,7 @@ def run(ctx):
 
     # 2 + 3. programs
     c2, m2, c3, m3 = [], [], [], []
-    nprog, per = ctx.n(20, 200), 30
+    nprog, per = ctx.n(30, 250), 36
     for pi in range(nprog):
         conds, envs = gen_conditions(ctx, per)
         # conditions whose evaluation is expected to raise run alone (a raise kills the whole skedder run)
